@@ -5,6 +5,7 @@ CONSTANTS
   Conns = {1, 2, 3}
   Closers = {1}
   MaxCloses = 2
+  MaxTotal = 6
   MaxErrs = 1
   Spurious = FALSE
   GenDepth = 6
